@@ -28,6 +28,8 @@ use erbium_net::addr::{NetAddr, ToNetAddr, UNSPECIFIED4, WithPort as _};
 use erbium_net::packet;
 use erbium_net::raw;
 use erbium_net::udp;
+#[cfg(erbium_verif)]
+use erbium_net::sim::tokio;
 
 pub mod config;
 pub mod dhcppkt;
